@@ -153,7 +153,7 @@ func nativesFromSource(repo string) ([]srcNat, error) {
 			continue
 		}
 		fset := token.NewFileSet()
-		f, err := parser.ParseFile(fset, filepath.Join(dir, en.Name()), nil, 0)
+		f, err := parser.ParseFile(fset, effSourcePath(filepath.Join(dir, en.Name())), nil, 0)
 		if err != nil {
 			return nil, err
 		}
